@@ -118,6 +118,7 @@ CompDiff(cfg, e, r) ==
     \cup (IF e.failed THEN (IF r.comps = <<>> /\ r.compnil THEN {} ELSE {"comps"})
           ELSE IF BagEq(e.comps, r.comps) /\ r.sorted THEN {} ELSE {"comps"})
     \cup (IF e.failed = r.wother THEN {} ELSE {"writer"})
+    \cup (IF r.nondet THEN {"nondet"} ELSE {})
 
 -----------------------------------------------------------------------------
 (* The property statement (C17) written declaratively, for positions where *)
